@@ -30,6 +30,13 @@ def run(ctx):
                                        chunk=40000 if label == "store" else 800)   # proxy cases open up to 4 stores each: bounded descriptors per process
         for k in tot:
             tot[k] += summ[k]
+        if label == "store" or not quick:
+            # once more with random parts spread over the whole uint64 range (as the proxy's IDs are)
+            mism2, summ2, _ = vlib.run_cases(ctx, drv, ["-workers", str(vlib.NCPU), "-wide"], cf, label=label + "-wide", timeout=3400,
+                                             chunk=40000 if label == "store" else 800)
+            for k in tot:
+                tot[k] += summ2[k]
+            mism = list(mism) + list(mism2)
         for m in mism:
             ctx.violation("multifrac:%s:%s" % (label, (m.get("what") or "")[:20]), m,
                           what="search over split documents differs from the single-fraction reference: " + str(m.get("what"))[:120])
